@@ -200,7 +200,7 @@ pub fn def() -> PropDef {
             name: "count",
             rule: "see property rule",
             strategy,
-            cases: (20_000, 1_200_000),
+            cases: (300_000, 3_000_000),
             exhaustive: Some(enumerate),
             exhaustive_note: "empty list all n; all single functions n<=3/4; all ordered pairs n<=2/3; both families",
             run,
